@@ -55,7 +55,7 @@ func loadFixtures() []string {
 	return c12Fixtures
 }
 
-var c12Frags = []string{"set", "set ", "set name", "set name ", "set keymap", "set editing-mode", "set editing-mode x", "$if", "$if ", "$if mode=", "$else", "$endif", "$include", "$include ", "$unknown arg",
+var c12Frags = []string{"set", "set ", "set name", "set name ", "set keymap", "set editing-mode", "set editing-mode x", "$if", "$if ", "$if mode=", "$else", "$endif", "$include", "$include ", "$include ~", "$include ~ # comment", "$include ~x", "$include ~/", "$include /", "$include .", "$unknown arg",
 	"Control-", "C-M-", "Meta-", "M-", "\"\\C-", "\"\\M-\\C-", "\"\\M-\\C-\"", "\"\\C-\\M-", "\"\\", "\"", "'", "\"abc", "\"abc\":", "\"abc\": \"", "\"abc\": \"def", "x:", ":", "::", "\"\\x", "\"\\xg\"", "\"\\777\": a", "\"\\400\": a",
 	"\"\\e[\": \"", "a\\", "\\", "set x \"", "set x 'y", "\x00", "set \x00 y", "\"\x00\": z", "\xff\xfe", "set a \xc3", "\u2028", "\r", "a\r\nb", "Control-Meta-", "control-control-x: y", "foo-x: y", "C-: y", "\"\\C-\": y", "\"\\M-\": y"}
 
@@ -222,6 +222,15 @@ func c12Run(env *fw.Env, raw json.RawMessage) fw.Outcome {
 			return err
 		})
 	}
+	// a handler made with NewConfig(): no function to read included files with
+	if len(o.O.Findings) == 0 && strings.Contains(string(text), "$include") {
+		run("ParseBytes(NewConfig without ReadFileFunc)", func() error {
+			cfg := inputrc.NewConfig()
+			cfg.ReadFileFunc = nil
+			return inputrc.ParseBytes(text, cfg, opts...)
+		})
+		o.Add("parses_with_a_handler_without_readfile", 1)
+	}
 	// the real start-up path: an application creating a shell with this file as its inputrc
 	if len(o.O.Findings) == 0 && len(text)%7 == 0 && len(c.Files) == 0 && len(text) < 100000 {
 		dir, _ := os.MkdirTemp(env.Scratch, "c12-")
@@ -284,7 +293,7 @@ func init() {
 	fw.Register(&fw.Prop{
 		ID:    "C12",
 		Level: "exploration",
-		Rule: "inputs derived from grammar-generated programs (C13's generator) and the repository's fixtures by: truncation at a PRNG offset, byte flips, inserted lone directives/modifiers/unterminated quotes (50 fragments), single truncated lines, 10-10000-deep $if, 64 KiB-1 MiB lines, CR/LF/NUL mixes, random bytes, and include graphs (self, 2-cycle, chain, diamond, missing, erroring, cycle inside $if, a file including itself twice, two files including each other twice) served through ReadFileFunc; x strict x halt-on-error x (mode, term, app); each parsed in a worker process through ParseBytes and Parser.Parse; oracle = returns without panic or fatal error and with at most 200000 ReadFile calls. " +
+		Rule: "inputs derived from grammar-generated programs (C13's generator) and the repository's fixtures by: truncation at a PRNG offset, byte flips, inserted lone directives/modifiers/unterminated quotes (50 fragments), single truncated lines, 10-10000-deep $if, 64 KiB-1 MiB lines, CR/LF/NUL mixes, random bytes, and include graphs (self, 2-cycle, chain, diamond, missing, erroring, cycle inside $if, a file including itself twice, two files including each other twice) served through ReadFileFunc; x strict x halt-on-error x (mode, term, app); each parsed in a worker process through ParseBytes and Parser.Parse (texts with $include also into a Config made by NewConfig() without a ReadFileFunc); oracle = returns without panic or fatal error and with at most 200000 ReadFile calls. " +
 			"distinct non-trivial = distinct (mutation kind, strict, halt, length class) tuples",
 		Assumptions: []string{"a fatal runtime error (stack overflow) kills the worker and is attributed by the driver to the case that was running", "more than 200000 ReadFile calls for one parse on <= 6 files is 'recurses without bound'"},
 		N: func(tier string) int {
